@@ -70,9 +70,7 @@ func funcsOf(prog *load.Program, visit func(pkgPath string, info *types.Info, fd
 
 // mapRangeTable lists map iterations that are order-insensitive for a reason
 // the idiom recognisers cannot see. Key: function + ranged expression.
-var mapRangeTable = map[string]string{
-	"Registry.searchImport:r.imports": "first match by qualifier: order-insensitive iff qualifiers of registered imports are pairwise distinct, which is what AddImport's conflict resolution establishes (C11's undecided clause; assumption recorded)",
-}
+var mapRangeTable = map[string]string{}
 
 // CheckDeterminism is C14: no unordered or otherwise nondeterministic source reaches the output.
 func CheckDeterminism(run *core.Run, prog *load.Program) {
@@ -96,7 +94,23 @@ func CheckDeterminism(run *core.Run, prog *load.Program) {
 						run.Check("G-DET/clock", fname+"→"+full, prog.Pos(s.Pos()), false, fname+" reads the clock ("+full+")")
 					case full == "os.Getenv" || full == "os.LookupEnv" || full == "os.Environ" || full == "os.Getpid" || full == "os.Hostname" || full == "os.Getwd" || full == "os.UserHomeDir":
 						run.Check("G-DET/environment", fname+"→"+full, prog.Pos(s.Pos()), false, fname+" reads the process environment ("+full+"): the output would depend on more than the source package and the options")
-					case p == "fmt" && len(s.Args) > 0:
+					case p == "maps" && (callee.Name() == "Keys" || callee.Name() == "Values" || callee.Name() == "All"):
+					// a map iteration in disguise: fine when it is handed straight to a sort
+					nRanges++
+					key := fname + ":" + callee.Name() + "(" + types.ExprString(s.Args[0]) + ")"
+					okSorted := false
+					ast.Inspect(fd.Body, func(o ast.Node) bool {
+						oc, isCall := o.(*ast.CallExpr)
+						if !isCall || len(oc.Args) == 0 || ast.Unparen(oc.Args[0]) != ast.Expr(s) {
+							return true
+						}
+						if ofn, isFn := typeutil.Callee(info, oc).(*types.Func); isFn && ofn.Pkg() != nil && ofn.Pkg().Path() == "slices" && ofn.Name() == "Sorted" && callee.Name() != "All" {
+							okSorted = true
+						}
+						return true
+					})
+					run.Check("G-DET/map-range", key, prog.Pos(s.Pos()), okSorted, fmt.Sprintf("%s iterates over the map %s through maps.%s and does not hand the sequence straight to slices.Sorted: the iteration order is random and can reach the output", fname, types.ExprString(s.Args[0]), callee.Name()))
+				case p == "fmt" && len(s.Args) > 0:
 						if tv := info.Types[s.Args[0]]; tv.Value != nil && strings.Contains(tv.Value.ExactString(), "%p") {
 							run.Check("G-DET/pointer-format", fname, prog.Pos(s.Pos()), false, fname+" formats a pointer with %p")
 						}
@@ -122,6 +136,9 @@ func CheckDeterminism(run *core.Run, prog *load.Program) {
 				run.Check("G-DET/map-range", key, prog.Pos(s.Pos()), ok, fmt.Sprintf("%s ranges over the map %s and the loop body is not one of the order-insensitive idioms (collect then sort by a total order on the key / pure existence test): Go randomises map iteration, so the effects of the body can differ from run to run (%s)", fname, types.ExprString(s.X), how))
 				if ok {
 					run.Sample(map[string]string{"map_range": key, "pos": prog.Pos(s.Pos()), "discharged_by": how})
+					if strings.HasPrefix(how, "assumed:") {
+						run.Assumef("map iteration %s: %s", key, how)
+					}
 				}
 			}
 			return true
@@ -140,11 +157,54 @@ func orderInsensitive(info *types.Info, fd *ast.FuncDecl, rs *ast.RangeStmt) (bo
 	// variable, and the next use of s after the loop is a sort by a total order.
 	var target *types.Var
 	collect := len(rs.Body.List) > 0
+	var counter types.Object
+	// an element built from the range key/value only (the key, the value, or a literal / call over them
+	// without other variables)
+	elemOK := func(e ast.Expr) bool {
+		ok := true
+		ast.Inspect(e, func(n ast.Node) bool {
+			if id, isID := n.(*ast.Ident); isID {
+				switch o := info.ObjectOf(id).(type) {
+				case *types.Var:
+					if o.IsField() || sameIdent(info, id, rs.Key) || sameIdent(info, id, rs.Value) {
+						return true
+					}
+					ok = false
+				}
+			}
+			return ok
+		})
+		return ok
+	}
 	for _, st := range rs.Body.List {
+		// n++ of the fill counter
+		if inc, isInc := st.(*ast.IncDecStmt); isInc && inc.Tok == token.INC {
+			if id, isID := inc.X.(*ast.Ident); isID && counter != nil && info.ObjectOf(id) == counter {
+				continue
+			}
+			collect = false
+			break
+		}
 		as, ok := st.(*ast.AssignStmt)
 		if !ok || len(as.Lhs) != 1 || len(as.Rhs) != 1 || as.Tok != token.ASSIGN {
 			collect = false
 			break
+		}
+		// s[n] = <element>
+		if ix, isIx := as.Lhs[0].(*ast.IndexExpr); isIx {
+			sid, ok1 := ix.X.(*ast.Ident)
+			nid, ok2 := ix.Index.(*ast.Ident)
+			if !ok1 || !ok2 || !elemOK(as.Rhs[0]) {
+				collect = false
+				break
+			}
+			v, _ := info.ObjectOf(sid).(*types.Var)
+			if v == nil || (target != nil && target != v) || (counter != nil && counter != info.ObjectOf(nid)) {
+				collect = false
+				break
+			}
+			target, counter = v, info.ObjectOf(nid)
+			continue
 		}
 		id, ok := as.Lhs[0].(*ast.Ident)
 		call, ok2 := as.Rhs[0].(*ast.CallExpr)
@@ -166,9 +226,8 @@ func orderInsensitive(info *types.Info, fd *ast.FuncDecl, rs *ast.RangeStmt) (bo
 			collect = false
 			break
 		}
-		// the appended element is the range key or value itself
-		el, ok := call.Args[1].(*ast.Ident)
-		if !ok || (!sameIdent(info, el, rs.Key) && !sameIdent(info, el, rs.Value)) {
+		// the appended element is built from the range key or value alone
+		if !elemOK(call.Args[1]) {
 			collect = false
 			break
 		}
@@ -229,7 +288,60 @@ func orderInsensitive(info *types.Info, fd *ast.FuncDecl, rs *ast.RangeStmt) (bo
 			}
 		}
 	}
+	// idiom 3: first match — `if f(value) == <loop-invariant> { return ... }` (or the same with an inverted
+	// test and continue): order-insensitive iff at most one entry matches, i.e. the entries are pairwise
+	// distinct under f. That is an assumption about the map's contents, recorded with the function it names.
+	if cond, ok := firstMatchCond(rs); ok {
+		if be, ok := ast.Unparen(cond).(*ast.BinaryExpr); ok && (be.Op == token.EQL || be.Op == token.NEQ) {
+			for _, pair := range [][2]ast.Expr{{be.X, be.Y}, {be.Y, be.X}} {
+				usesElem, usesOther := false, false
+				ast.Inspect(pair[0], func(n ast.Node) bool {
+					if id, ok := n.(*ast.Ident); ok && (sameIdent(info, id, rs.Key) || sameIdent(info, id, rs.Value)) {
+						usesElem = true
+					}
+					return true
+				})
+				ast.Inspect(pair[1], func(n ast.Node) bool {
+					if id, ok := n.(*ast.Ident); ok && (sameIdent(info, id, rs.Key) || sameIdent(info, id, rs.Value)) {
+						usesOther = true
+					}
+					return true
+				})
+				if usesElem && !usesOther {
+					f := "the value"
+					if call, ok := ast.Unparen(pair[0]).(*ast.CallExpr); ok {
+						if sel, ok := ast.Unparen(call.Fun).(*ast.SelectorExpr); ok {
+							f = sel.Sel.Name + "()"
+						}
+					}
+					return true, "assumed: first match by " + f + " — order-insensitive iff the entries are pairwise distinct under it (for import qualifiers that is what AddImport's conflict resolution establishes; C11's undecided clause)"
+				}
+			}
+		}
+	}
 	return false, "body has order-dependent effects"
+}
+
+// firstMatchCond: the loop body is `if c { return ... }` or `if !c' { continue }; return ...`.
+func firstMatchCond(rs *ast.RangeStmt) (ast.Expr, bool) {
+	l := rs.Body.List
+	if len(l) == 1 {
+		if is, ok := l[0].(*ast.IfStmt); ok && is.Init == nil && is.Else == nil && len(is.Body.List) == 1 {
+			if _, ok := is.Body.List[0].(*ast.ReturnStmt); ok {
+				return is.Cond, true
+			}
+		}
+	}
+	if len(l) == 2 {
+		is, ok := l[0].(*ast.IfStmt)
+		_, isRet := l[1].(*ast.ReturnStmt)
+		if ok && isRet && is.Init == nil && is.Else == nil && len(is.Body.List) == 1 {
+			if br, ok := is.Body.List[0].(*ast.BranchStmt); ok && br.Tok == token.CONTINUE && br.Label == nil {
+				return is.Cond, true // == / != are treated alike by the caller
+			}
+		}
+	}
+	return nil, false
 }
 
 func sameIdent(info *types.Info, a *ast.Ident, b ast.Expr) bool {
